@@ -228,4 +228,48 @@ def lastEdit : List Edit → Key → Option (Option Val)
 /-- `SetAll` as edits -/
 def editsOfKV (kvs : KV) : List Edit := kvs.map (fun p => (p.1, some p.2))
 
+/-! ### consumers: which tracking accessors an update path reads, and what it therefore sends
+
+Reads are coded as in tools/extract/goext/c12.go: 0 AddedKinds, 1 DeletedKinds, 2 Kinds, 3 ModifiedProperties(),
+4 DeletedProperties(), 5 the whole map, 6 raw Modified, 7 raw Deleted. -/
+
+/-- does the path write kinds / properties at all? -/
+def kindsTouched (r : List Nat) : Bool := r.contains 0 || r.contains 1
+def propsTouched (r : List Nat) : Bool := r.contains 3 || r.contains 4 || r.contains 5
+
+/-- kinds are either not written by this path, or written completely: deletions together with the added kinds
+(delta form) or with all current kinds (full form) -/
+def kindsPartOk (r : List Nat) : Bool := !kindsTouched r || (r.contains 1 && (r.contains 0 || r.contains 2))
+
+/-- properties are either not written by this path, or written completely: deletions together with the modified pairs
+(delta form) or with the whole map (full form); raw tracking fields are never read -/
+def propsPartOk (r : List Nat) : Bool :=
+  !(r.contains 6 || r.contains 7) && (!propsTouched r || (r.contains 4 && (r.contains 3 || r.contains 5)))
+
+/-- a path that reads only the kind delta and no property state (a helper such as a batching key) -/
+def kindsOnly (r : List Nat) : Bool := kindsTouched r && !propsTouched r && !(r.contains 6 || r.contains 7)
+
+/-- the path consumes the delta completely: every part it writes is complete, and a path that writes kinds also writes
+properties unless it is a pure kinds helper (those are pinned by name in Props/C12Consumers.lean) -/
+def pathOk (r : List Nat) : Bool := kindsPartOk r && propsPartOk r && (!kindsTouched r || propsTouched r || kindsOnly r)
+
+/-- first missing piece, for reports -/
+def pathGap (r : List Nat) : String :=
+  if r.contains 6 || r.contains 7 then "raw-tracking-field-read"
+  else if propsTouched r && !r.contains 4 then "deleted-properties-not-consumed"
+  else if propsTouched r && !(r.contains 3 || r.contains 5) then "modified-properties-not-consumed"
+  else if kindsTouched r && !r.contains 1 then "deleted-kinds-not-consumed"
+  else if kindsTouched r && !(r.contains 0 || r.contains 2) then "added-kinds-not-consumed"
+  else if pathOk r then "ok" else "incomplete"
+
+/-- what a path with reads `r` sends for the properties: (pairs to write, keys to delete) -/
+def sentProps (r : List Nat) (s : Props) : KV × List Key :=
+  (if r.contains 3 then s.modifiedProperties else if r.contains 5 then s.m else [],
+   if r.contains 4 then s.del else [])
+
+/-- … and for the kinds: (kinds to add, kinds to remove) -/
+def sentKinds (r : List Nat) (x : Ent) : List Kind × List Kind :=
+  (if r.contains 0 then x.added else if r.contains 2 then x.kinds else [],
+   if r.contains 1 then x.removed else [])
+
 end Dawgs.C12
